@@ -14,9 +14,9 @@ PID = "C01"
 TRANSLATORS = ["T-jumpi", "T-consts", "T-branchpts", "T-assertbranch", "T-dispatch"]
 
 PLAN_QUICK = [("straight", 14), ("branch", 14), ("memory", 10), ("storage", 10), ("hash", 10), ("log", 6), ("loop", 14), ("call", 12), ("create", 14),
-              ("opgrid", 32), ("callfail", 22), ("symtarget", 12), ("valuecall", 12), ("corr", 16), ("symloop", 12), ("stackops", 12), ("hashcond", 8)]
+              ("opgrid", 32), ("callfail", 22), ("symtarget", 12), ("valuecall", 12), ("corr", 16), ("symloop", 12), ("stackops", 12), ("hashcond", 8), ("symstore", 12)]
 PLAN_THOROUGH = [("straight", 150), ("branch", 200), ("memory", 120), ("storage", 150), ("hash", 150), ("log", 60), ("loop", 80), ("call", 200), ("create", 100),
-                 ("opgrid", 600), ("callfail", 300), ("symtarget", 150), ("valuecall", 150), ("corr", 150), ("symloop", 150), ("stackops", 150), ("hashcond", 100)]
+                 ("opgrid", 600), ("callfail", 300), ("symtarget", 150), ("valuecall", 150), ("corr", 150), ("symloop", 150), ("stackops", 150), ("hashcond", 100), ("symstore", 150)]
 
 ASSUMPTIONS = [
     "standard interpretation of keccak (real Keccak-256) and exact definitions of the f_evm_* abstractions when evaluating halmos' terms",
@@ -76,6 +76,10 @@ def run_tie(rep, tier, plan, seed_tag, pid, direction, options_list=({},), patch
         nontrivial = res["n_paths"] > 1 or res["stats"]["evaluated"] > 0
         rep.case({"program": d["code"] if len(d["code"]) <= 200 else d["code"][:200] + "...", "profile": d["profile"], "paths": res["n_paths"], "inputs": res["n_inputs"], "options": d["options"]}, nontrivial=nontrivial)
         rep.coverage["path_input_evaluations"] = rep.coverage.get("path_input_evaluations", 0) + res["stats"]["evaluated"]
+        # (path, input) pairs that could not be evaluated because a symbol has no interpretation in the harness:
+        # counted, so that a hole in the evaluator is visible in the evidence instead of silently shrinking the run
+        for sym, k in (res["stats"].get("unknown_symbols") or {}).items():
+            rep.count("unevaluated_symbol", sym.split("(")[0][:40], k)
         for f in res[direction][:3]:
             sig = sig_of(d, f)
             what = f.get("what", "input not covered by any reported path")
